@@ -438,7 +438,7 @@ def run(ck):
                                'harness/h_nlread.cc recording handler + error-class mapping; checks/c02.py oracle and comparison']
 
 
-EXPECT_THEOREMS = 1
+EXPECT_THEOREMS = 4
 
 
 def replay(ck, path):
